@@ -239,7 +239,9 @@ class CompleteWorkflowHandler(StabilizeHandler[CompleteWorkflow]):
     def _other_branches_incomplete(self, stages: list[StageExecution]) -> bool:
         """Check if any other branches are incomplete."""
         for stage in stages:
-            if stage.status == WorkflowStatus.RUNNING:
+            # A stage waiting for a signal / resume is an unfinished branch too:
+            # the workflow must not be reported SUCCEEDED around it.
+            if stage.status in (WorkflowStatus.RUNNING, WorkflowStatus.SUSPENDED, WorkflowStatus.PAUSED):
                 return True
             if stage.status == WorkflowStatus.NOT_STARTED and stage.all_upstream_stages_complete():
                 return True
